@@ -3,6 +3,7 @@
 package calcium
 
 import (
+	"context"
 	"time"
 
 	"github.com/panjf2000/ants/v2"
@@ -56,6 +57,16 @@ func (c *Calcium) ShutdownForVerif(d time.Duration) {
 		}
 	}
 	_ = hydro.Close()
+}
+
+// WithNodesPodLockedForVerif exposes the pod-lock wrapper (verification harness only).
+func (c *Calcium) WithNodesPodLockedForVerif(ctx context.Context, nf *types.NodeFilter, f func(context.Context, map[string]*types.Node) error) error {
+	return c.withNodesPodLocked(ctx, nf, f)
+}
+
+// WithWorkloadsLockedForVerif exposes the workload-lock wrapper (verification harness only).
+func (c *Calcium) WithWorkloadsLockedForVerif(ctx context.Context, ids []string, f func(context.Context, map[string]*types.Workload) error) error {
+	return c.withWorkloadsLocked(ctx, false, ids, f)
 }
 
 // WALForVerif exposes the WAL (verification harness only).
